@@ -13,7 +13,7 @@ import (
 func init() {
 	register("C01", ruleC01FilterLoop, ruleC01CmpTable, ruleC01Membership, ruleC01Between, ruleC01Like, ruleC01Connectives, ruleC01Where,
 		// the value ordering C01 relies on ("numeric order on numbers, lexicographic on strings"): shared with C15
-		ruleC15Range, ruleC15Trichotomy, ruleC15ExactDomain, ruleC15Dispatch)
+		ruleC15Range, ruleC15Trichotomy, ruleC15ExactDomain, ruleC15Dispatch, ruleExecScansEveryRow)
 }
 
 const sqlp = "github.com/vedadiyan/sqlparser/v2"
